@@ -29,7 +29,11 @@ BigFamilies ==
   \cup { Case(ListOf({ 2 * i : i \in 1..n }, MfB), ListOf({ 2 * i - 1 : i \in 1..(n + 1) }, MgB)) : n \in BigSizes }
   \cup { Case(GRange(1, n, MfB), GRange(1, 0, MgB)) : n \in BigSizes }
   \cup { Case(GRange(1, n, MfB), GRange(1, 2, MgB)) : n \in BigSizes }
-Cases == Families \cup BigFamilies
+\* forks: a common prefix 1..p, then one genome goes on with q genes and the other with t genes that all lie beyond them (the
+\* second genome's tail is excess although it starts INSIDE the first genome's index range): gene counts differ by t - q
+ForkFamilies ==
+     { Case(GRange(1, p + q, MfB), ListOf((1..p) \cup ((p + q + 1)..(p + q + t)), MgB)) : p \in {0, 1, 3, 7}, q \in {1, 2, 5}, t \in {3, 9, 10, 14, 20, 33} }
+Cases == Families \cup BigFamilies \cup ForkFamilies
 ASSUME /\ ndJsonSerialize(IOEnv.OUT, SetToSeq(Cases))
        /\ PrintT(<<"cases", Cardinality(Cases)>>)
 VARIABLE x
